@@ -339,7 +339,9 @@ func genURL(r *RNG, s *SchemaSpec) *URLSpec {
 				u.Params = append(u.Params, QP{"filter", ""})
 			case 1, 2:
 				u.Params = append(u.Params, QP{"filter", r.Pick([]string{"label", "a_label", "a b", "a&b", "x?y", "a#b", "50%", "a+b", "a/b", "é", "{", "\"", "a\\nb", "[1]",
-					`ring\u0007bell`, `del\u007fchar`, `a\\b`, `\"q\"`, `\u00e9`, `\ud83d\ude00`, `tab\tx`, `\u007Bx`, `\u000b`, `\udb40\udc01`, `a\/b`, `<\u003e&`})})
+					`ring\u0007bell`, `del\u007fchar`, `a\\b`, `\"q\"`, `\u00e9`, `\ud83d\ude00`, `tab\tx`, `\u007Bx`, `\u000b`, `\udb40\udc01`, `a\/b`, `<\u003e&`,
+					// labels whose FIRST character (given as an escape) is one a JSON value can start with
+					`\u005bdraft]`, `\u005b]`, `\u005b{}]`, `\u0022q`, `\u0074rue`, `\u006eull`, `\u0031`, `\u002d1`, `\u0020lead`, "true", "null", "12", "-1"})})
 			case 3:
 				u.Params = append(u.Params, QP{"filter", r.Pick([]string{`{invalid}`, `{"f":1}`, `{"o":"and","v":5}`, `{"o":"or","v":[1]}`, `{}`, `{"f":"a","o":"=","v":"x"} trailing`})})
 			default:
